@@ -705,8 +705,18 @@ def _audio_args(audio_dir, audio_as):
     return ((value,), {}) if pos == "pos" else ((), {"audio_dir": value})
 
 
+def _api_for(api, path):
+    """Inferring the format is only defined for names ending in .json; for
+    any other name the caller says nothing about the format (the default)."""
+    if api == "infer" and not str(path).endswith(".json"):
+        return "io"
+    return api
+
+
 def h_save(src, path, path_as="str", audio_dir=None, audio_as="str", api="io"):
     from soundevent import io as sio  # noqa: PLC0415
+
+    api = _api_for(api, path)
 
     obj = _resolve_source(src)
     args, kwargs = _audio_args(audio_dir, audio_as)
@@ -738,6 +748,7 @@ def h_load(
     args, kwargs = _audio_args(audio_dir, audio_as)
     if type_arg is not None:
         kwargs["type"] = type_arg
+    api = _api_for(api, path)
     try:
         if api == "aoef":
             from soundevent.io import aoef  # noqa: PLC0415
